@@ -667,3 +667,31 @@ package eval
 //@   ensures [ok-iff] (= (= $ret2 ENil) (and (= (len $params) 2) (is.string (idx $params 0)) (is.string (idx $params 1))))
 //@ func DestructParamsInt2 C06
 //@   ensures [ok-iff] (= (= $ret2 ENil) (and (= (len $params) 2) (is.int64 (idx $params 0)) (is.int64 (idx $params 1))))
+
+// ---------------------------------------------------------------------------
+// C09 — the structural size check.  Ghost functions over AST node references, constrained by LOCAL
+// equations on a footprint closed under children (DESIGN 3): TS tree size, SS(t,k) size of the first k
+// subtrees, AO arity-ok (no node in the subtree has more than 127 children), inTree the footprint.
+//@ ghost (declare-fun TS (Int) Int)
+//@ ghost (declare-fun SS (Int Int) Int)
+//@ ghost (declare-fun AO (Int) Bool)
+//@ ghost (declare-fun inTree (Int) Bool)
+//@ macro (CHILD $t $k) (select (arr (fld (ref astNode $t) children)) (+ (off (fld (ref astNode $t) children)) $k))
+//@ macro (ASTLOCAL $t) (let ((nc (len (fld (ref astNode $t) children))))
+//@    (and (not (= $t 0)) (>= (TS $t) 1) (= (SS $t 0) 0) (= (TS $t) (+ 1 (SS $t nc)))
+//@         (forall ((k Int)) (! (=> (and (<= 0 k) (< k nc))
+//@              (and (inTree (CHILD $t k)) (= (SS $t (+ k 1)) (+ (SS $t k) (TS (CHILD $t k)))) (>= (SS $t k) 0) (<= (SS $t (+ k 1)) (SS $t nc))))
+//@              :pattern ((SS $t (+ k 1)))))
+//@         (= (AO $t) (and (<= nc 127) (forall ((j Int)) (! (=> (and (<= (off (fld (ref astNode $t) children)) j) (< j (+ (off (fld (ref astNode $t) children)) nc))) (AO (select (arr (fld (ref astNode $t) children)) j))) :pattern ((select (arr (fld (ref astNode $t) children)) j))))))))
+//@ macro (ASTOK) (forall ((t Int)) (! (=> (inTree t) (ASTLOCAL t)) :pattern ((inTree t))))
+
+//@ func check C09 C06
+//@   requires [tree] (and (inTree $root) (ASTOK))
+//@   ensures [accepted] (=> (= (fld $ret0 err) ENil) (and (= (fld $ret0 size) (TS $root)) (<= (TS $root) 32767) (AO $root)))
+//@   ensures [rejected] (=> (not (= (fld $ret0 err) ENil)) (or (not (AO $root)) (> (TS $root) 32767)))
+//@   assigns next E_any
+//@   loop 1 (rangeindex)
+//@     invariant [partial-size] (and (= $size (SS $root (+ $rangeindex 1))) (<= 0 $size) (<= $size (* 32767 (+ $rangeindex 1))))
+//@     invariant [arity-prefix] (forall ((j Int)) (! (=> (and (<= (off (fld $root children)) j) (<= j (+ (off (fld $root children)) $rangeindex))) (AO (select (arr (fld $root children)) j))) :pattern ((select (arr (fld $root children)) j))))
+//@     invariant [root-arity] (<= (len (fld $root children)) 127)
+//@     decreases (- (len (fld $root children)) $rangeindex)
